@@ -85,8 +85,8 @@ Theorem C14_nothing_added :
     In (n, v) (q_headers r) -> In n (mentioned ops) /\ In v (spec_vals full n ops).
 Proof. exact described_nothing_added. Qed.
 
-(* both APIs: the capability API's request (builder calls, then calls on the Request itself) is the
-   command API's request for the concatenated description *)
+(* both APIs, both stages: a request described by builder calls and then by calls on the Request
+   itself (from a per-request middleware) is the request of the concatenated description *)
 Theorem C14_same_both_apis :
   forall url_ok url_str iter_order method ops1 ops2,
     send_cap url_ok url_str iter_order method ops1 ops2 = send_cmd url_ok url_str iter_order method (ops1 ++ ops2).
